@@ -93,7 +93,24 @@ func checkMine(c mineCase) (h.Info, error) {
 		w = powv2.New(c.Workers)
 		workers[c.Workers] = w
 	}
-	nonce, err := w.Mine(ctx, dataIn, c.Target)
+	type res struct {
+		nonce uint64
+		err   error
+	}
+	ch := make(chan res, 1)
+	go func() {
+		n, e := w.Mine(ctx, dataIn, c.Target)
+		ch <- res{n, e}
+	}()
+	var nonce uint64
+	var err error
+	select {
+	case r := <-ch:
+		nonce, err = r.nonce, r.err
+	case <-time.After(180 * time.Second):
+		// termination is property C13's statement, not C12's: inconclusive here
+		h.InfraAndExit("C12", "mine", c, fmt.Sprintf("v2.Mine(data=%x, target=%d, workers=%d) did not return within 180 s (60 s after its context expired); C12 cannot be decided, see C13", []byte(c.Data), c.Target, c.Workers))
+	}
 	info := h.Info{Class: "mine/" + c.Class}
 	if string(dataIn) != string(c.Data) {
 		return info, fmt.Errorf("v2.Mine modified data")
